@@ -121,6 +121,10 @@ func genC16() {
 				if c12IsSel(s.X, recv, "channel") {
 					calls = append(calls, name+": channel."+s.Sel.Name)
 				}
+				if id, ok := s.X.(*ast.Ident); ok && id.Name == "ioReader" && s.Sel.Name == "Read" {
+					// sendData's loop: the order read -> id check -> Send is what keeps another history's bytes in
+					calls = append(calls, name+": ioReader.Read")
+				}
 				if id, ok := s.X.(*ast.Ident); ok && id.Name == recv && s.Sel.Name == "handleResp" {
 					calls = append(calls, fmt.Sprintf("%s: handleResp/%d", name, len(x.Args)))
 				}
@@ -459,6 +463,43 @@ func genC16() {
 			die("api.pb.go: SyncResponse_%s not found", k)
 		}
 	}
+
+	// ---- the functions Model/ReplicaIdSrc.lean transcribes (where a leader's channel run id comes
+	// from) and the commit of a received snapshot (Loss.nocommit): bodies pinned by digest, log /
+	// metric statements dropped
+	idsrc := map[string]string{}
+	for _, fn := range [][2]string{
+		{"pkg/redis/util.go", "GetRunIds"}, {"pkg/redis/psync.go", "SendPSync"},
+		{"pkg/store/store.go", "newRunId"}, {"pkg/store/store.go", "SetRunId"}, {"pkg/store/store.go", "DelRunId"}, {"pkg/store/store.go", "VerifyRunId"},
+		{"syncer/memory_channel.go", "SetRunId"}, {"syncer/memory_channel.go", "DelRunId"},
+		{"pkg/store/rdb_writer.go", "closeRdb"},
+	} {
+		fset, f := parseFile(fn[0])
+		found := false
+		for _, d := range f.Decls {
+			fd, ok := d.(*ast.FuncDecl)
+			if !ok || fd.Body == nil || fd.Name.Name != fn[1] {
+				continue
+			}
+			ast.Inspect(fd.Body, func(m ast.Node) bool {
+				switch x := m.(type) {
+				case *ast.BlockStmt:
+					x.List = c15FilterStmts(x.List)
+				case *ast.CaseClause:
+					x.Body = c15FilterStmts(x.Body)
+				case *ast.CommClause:
+					x.Body = c15FilterStmts(x.Body)
+				}
+				return true
+			})
+			idsrc[fn[0]+":"+fn[1]] = c12Digest(c15Print(fset, fd.Type) + " " + c15Print(fset, fd.Body))
+			found = true
+		}
+		if !found {
+			die("%s: function %s not found", fn[0], fn[1])
+		}
+	}
+	facts["c16_idsrc"] = idsrc
 
 	var b strings.Builder
 	b.WriteString(header)
